@@ -112,6 +112,7 @@ def wide_enum_cases():
 
 
 def random_cases(rng, nschemas, nvalues, depth=3):
+    randgen.NAN_OK = True          # these values stay inside Python
     out = wide_enum_cases()
     for _ in range(nschemas):
         sch = randgen.rand_schema(rng, depth=depth, wide_enums=True)
@@ -254,6 +255,9 @@ def corrupt_value(v):
 
 def check_canaries(verdicts, cans):
     for c in cans:
+        orig = verdicts.get(c["id"][len("canary-"):])
+        if orig is not None and orig["clause"] != "ok":
+            continue          # the event the canary was made from is itself rejected: its corruption proves nothing
         if verdicts[c["id"]]["clause"] == "ok":
             raise core.Machinery("canary accepted by Trace_Wire: %s" % json.dumps(c)[:600])
 
